@@ -1063,6 +1063,29 @@ func (w *world) exec1(line string) {
 		w.cfgs[atoi(tok[1])] = WithConfig(opts...)
 		fmt.Fprintln(w.ann, line)
 		fmt.Fprintln(w.out, "cfgrel ok")
+	case "jsonfmt":
+		// jsonfmt <hex doc> <sortKeys 0|1> <hex indent> <width>: the two library functions C14 rests
+		// on, called directly (the real gjson.Valid / gjson.ValidBytes and pretty.PrettyOptions), for
+		// the comparison with the Lean model (lean/GoSnaps/Json.lean).  For an invalid document only
+		// the verdict is compared (go-snaps never formats one).  The model also reports whether its
+		// structural parser accepts the document: that must be the validator's verdict.
+		doc := []byte(unhx(tok[1]))
+		width, _ := strconv.Atoi(tok[4])
+		valid := gjson.ValidBytes(doc)
+		verdict := "0"
+		if valid {
+			verdict = "1"
+		}
+		if gjson.Valid(string(doc)) != valid {
+			verdict = "Valid/ValidBytes-disagree"
+		}
+		out := ""
+		if valid {
+			opts := &pretty.Options{Width: width, Indent: unhx(tok[3]), SortKeys: tok[2] == "1"}
+			out = string(pretty.PrettyOptions(append([]byte(nil), doc...), opts))
+		}
+		fmt.Fprintln(w.ann, line)
+		fmt.Fprintf(w.out, "jsonfmt valid=%s parse=%s out=%s\n", verdict, verdict, hx(out))
 	case "pdiff":
 		// white-box: the report builder on its own
 		rep := prettyDiff(unhx(tok[1]), unhx(tok[2]), unhx(tok[3]), atoi(tok[4]))
